@@ -16,6 +16,10 @@ def run(rep):
     h3(rep, w)
     h4(rep, w)
     h5(rep, w)
+    h6(rep, w)
+    h7(rep, w)
+    import c02
+    c02.p8(rep, w)     # the tuple lock shared by Display and has_hash: left set, an unhashable tuple is accepted as a key (and panics in Hash)
 
 
 def discr_switches(f, adt_path):
@@ -213,3 +217,38 @@ def h5(rep, w):
     import locks
     r = rep.rule('H5', 'the hashability test restores its re-entrancy guard on every exit (a stuck guard makes an unhashable tuple look hashable)', floor=1)
     locks.check_guards(r, w, ['yarel::object::ObjTuple::has_hash'])
+
+
+def h6(rep, w):
+    """every way of putting an entry into a map overwrites an equal key: the literal `{k: a, k2: b}` with k == k2 ends with b, exactly
+    like two insert() calls (sibling agreement between the literal builder and the insert native)"""
+    from c16 import operand_fields as _of
+    r = rep.rule('H6', 'map literals and HashMap.insert put entries in the same way: HashMap::insert (last value wins for equal keys)', floor=2)
+    for nm in ('yarel::vm::Vm::build_hash_map', 'yarel::core::hash_map_insert'):
+        f = w.require_fn(nm, 'C12')
+        org = origins(f)
+        puts = []
+        for bi, t in f.calls():
+            n = strip_generics(callee_name(t) or '')
+            if n.startswith('std::collections::HashMap::') or n.startswith('std::collections::hash_map::'):
+                m = n.rsplit('::', 1)[-1]
+                if m in ('insert', 'entry', 'or_insert', 'or_insert_with', 'try_insert', 'extend', 'or_default', 'raw_entry_mut') and t['args'] and \
+                        ('elements' in _of(f, org, t['args'][0]) or m.startswith('or_')):
+                    puts.append(m)
+        r.check(puts == ['insert'], '%s stores an entry with HashMap::insert' % nm.rsplit('::', 1)[-1],
+                '%s stores entries through %s: for two equal keys the earlier value can win, which is not what a sequence of insert() calls gives' % (nm, puts), f.loc())
+
+
+def h7(rep, w):
+    """a key stays a key: every kind of heap value that can be a map key is traced when it is reached as a `Value` (a key referenced by
+    nothing but the map - an evicted range, a tuple built for the insertion - must survive collections)"""
+    import c01
+    r = rep.rule('H7', 'every hashable kind of heap value is traced as a Value (map keys survive collection)', floor=2)
+    hh = w.require_fn(HAS_HASH, 'C12')
+    sw, variants = discr_switches(hh, VAL)
+    if not sw:
+        raise Broken('C12', 'anchor', 'has_hash: match on Value not found')
+    keyable = {'ObjRange', 'ObjTuple', 'ObjClass', 'ObjString'} & set(variants)
+    n = c01.edges_traced(r, w, VAL, lambda lab: lab[0] in keyable and lab[0] != 'ObjString', 'a key held only by the map is reclaimed; later lookups read freed memory')
+    if n < 2:
+        raise Broken('C12', 'floor', 'hashable heap kinds audited: %d' % n)
